@@ -57,6 +57,7 @@ type FnRun struct {
 	wallMs  int64
 	wraps   bool
 	linear  bool
+	guarMode bool
 }
 
 func (r *FnRun) note(f string, a ...interface{}) {
